@@ -22,30 +22,34 @@ import (
 func init() { register("C07", true, checkC07) }
 
 func checkC07(c *Ctx) {
-	c.Rule("C07.R1", "no make length/capacity (or map reserve) reachable from wkb.Read/Decode, hex.Decode is input-derived (stored by encoding/binary.Read) unless bounded: clamped by a dominating comparison, min, or a helper all of whose returns are bounded")
-	c.Rule("C07.R2", "every may-panic construct (explicit panic, single-result type assertion, index/slice expression) reachable from a decoder entry point is statically safe or only reachable below a frame whose deferred function recovers and sets the error result; every value passed to panic below that frame implements error")
+	c.Rule("C07.R1", "WKB decoder on malformed input, evaluated on the typed-stream model: every truncation of the model messages, counts of 2^28 with no payload or with two genuine chunks of payload, unknown type codes, invalid flags and members of the wrong kind give an error; nothing panics and no make is sized by an announced count above the chunk limit")
+	c.Rule("C07.R2", "GeoJSON decoder on malformed documents (wrong nesting, positions of 0/1/3 numbers, non-numbers, empty arrays, unknown types, nil): an error, never a panic — whatever mechanism (recover or error values) produces it")
 	c.Rule("C07.R3", "in decoder functions a value returned together with an error is not asserted, dereferenced, indexed, method-called or returned with a nil error before that error is tested")
 	c.Rule("C07.R4", "premise of the re-encode clause: WKB writer and reader format trees and code tables agree (a count written is the number of members written, members go through Write/Read), so a value the decoder returned re-encodes to a message the decoder accepts")
-	c07taint(c)
-	c07panics(c)
 	c07errflow(c)
-	// R4: what the decoder accepts, the encoder writes back in a form the decoder accepts again
-	// (writer and reader layouts and code tables agree) — C05's layout analysis, filed here
-	if pk := c.P.Pkg("encoding/wkb"); pk != nil {
-		a5 := &c05{c: c, info: pk.TypesInfo, write: c.P.Func("encoding/wkb", "Write"), read: c.P.Func("encoding/wkb", "Read"), readers: map[int64]*types.Func{}}
-		if c.P.Decl(a5.write) != nil && c.P.Decl(a5.read) != nil {
-			c.Alias("C05.R1", "C07.R4")
-			c.Alias("C05.R3", "C07.R4")
-			a5.tables()
-			a5.layoutWriters()
-			a5.layoutReaders()
-			c.Alias("C05.R1", "")
-			c.Alias("C05.R3", "")
+	// R4 (and the WKB half of R1/R2): the stream model of C05 — layouts agree, and every malformed
+	// message gives an error without a panic or an allocation sized by an announced count
+	c05model(c, "C07.R4", "C07.R4", "C07.R1")
+	// the GeoJSON half of R2: malformed documents
+	if fromFn := c.P.Func("encoding/geojson", "FromGeoJSON"); fromFn != nil && c.P.Decl(fromFn) != nil {
+		m := newClipModel(c)
+		m.it.maxDepth = 14
+		anyT := types.NewInterfaceType(nil, nil)
+		anyT.Complete()
+		if gt := c.P.NamedType("encoding/geojson", "Geometry"); gt != nil && m.ptT != nil {
+			m.it.stub = func(f *types.Func, recv oval, args []oval) ([]oval, bool) {
+				if f.Pkg() != nil && (f.Pkg().Path() == "reflect" || f.Pkg().Path() == "encoding/json") {
+					return []oval{oTop{f.FullName() + " is not modelled"}}, true
+				}
+				return nil, false
+			}
+			g := &gjModel{m: m, c: c, anyT: anyT, arrT: types.NewSlice(anyT), geomT: gt, strT: types.Typ[types.String], mpT: c.P.NamedType("geom", "MultiPoint")}
+			c06malformed(c, g, fromFn, "C07.R2")
 		}
 	}
-	c.Floor("C07.R4", 20)
-	c.Floor("C07.R1", 6)
-	c.Floor("C07.R2", 20)
+	c.Floor("C07.R4", 14)
+	c.Floor("C07.R1", 1)
+	c.Floor("C07.R2", 1)
 	c.Floor("C07.R3", 8)
 }
 
